@@ -87,7 +87,7 @@ def synth(rec):
     return bytes(out), threshold_db(al, aq)
 
 
-def decisions(data, rec, thr, uc="__rec__"):
+def decisions(data, rec, thr, uc="__rec__", guard=True):
     """Exact per-window activity decisions of the produced bytes (energy
     oracle), with a guard-band self-check of the construction."""
     sw, ch, B = rec["sw"], rec["ch"], rec["B"]
@@ -99,7 +99,7 @@ def decisions(data, rec, thr, uc="__rec__"):
     for s in range(0, n, B):
         w = data[s * bps : min(s + B, n) * bps]
         e = oracles.energy_db(w, sw, ch, uc)
-        if abs(float(e) - thr) < 3:
+        if guard and abs(float(e) - thr) < 3:
             raise HarnessError(f"synthesized window energy {e} within 3 dB of threshold {thr}")
         out.append(float(e) >= thr)
     return out
